@@ -21,7 +21,7 @@ def contract(rng_o, rng_n, has_deadline):
     /*L*/         && (forall|i: int| 0 <= i < %(o)s.end - %(o)s.start ==> #[trigger] relk(rel_of(old, new), %(o)s.start as int, %(n)s.start as int, i)))
     /*L*/         ==> (res@.len() == (if %(o)s.end > %(o)s.start { 1nat } else { 0nat })
     /*L*/              && (%(o)s.end > %(o)s.start ==> res@[0] == DiffOp::Equal { old_index: %(o)s.start, new_index: %(n)s.start, len: (%(o)s.end - %(o)s.start) as usize })),
-''' % {'o': rng_o, 'n': rng_n, 'dln': ('deadline is None' if has_deadline else 'true'), 'dls': ('deadline is None,   // exactness is claimed without a deadline only (the deadline fallback emits an Insert that carries the start of the deleted block)' if has_deadline else 'true,')}
+''' % {'o': rng_o, 'n': rng_n, 'dln': ('deadline is None' if has_deadline else 'true'), 'dls': ('deadline is None || alg == Algorithm::Lcs,   // exactness is claimed without a deadline, and for LCS with any deadline (the Myers give-up path emits an Insert that carries the start of the deleted block)' if has_deadline else 'true,')}
 i = o.find('pub fn capture_diff<Old, New>(')
 o.before('{', contract('old_range', 'new_range', False), start=i)
 i = o.find('pub fn capture_diff_slices<T>(')
@@ -56,7 +56,7 @@ j = o.find('diff_deadline(alg, &mut d, old, old_range, new, new_range, deadline)
 o.lines[j+1:j+1] = ghost('''
 proof {
     reveal(step_rel);
-    let lvl = alg_lvl(deadline);
+    let lvl = lvl_of(alg, deadline);
     let s = choose|q: Seq<Ev>| #[trigger] seg(old, new, lvl, q, os, ns, oe, ne) && d.trace() == d0.trace() + q + fin::<Compact<Old, New, Replace<Capture>>>()
         && (d0.relies() ==> d.rely_st() == run_rel(d0.rely_rel(), d0.rely_st(), q + fin::<Compact<Old, New, Replace<Capture>>>()))
         && ((deadline is None && alg != Algorithm::Patience) ==> seg_eqs(rel, lvl, q, os, ns, oe, ne) == lcs_len(old, os, oe, new, ns, ne));
